@@ -133,6 +133,7 @@ class Gen:
         self.reg = []
         self.pairs = []
         self.plugin_pairs = []
+        self.io_pairs = []
         self.helper_fns = set()
 
     def w(self, s=""):
@@ -419,6 +420,12 @@ class Gen:
         tail += ["", "pub fn abi_pairs() -> Vec<AbiPair> {", "    let mut v: Vec<AbiPair> = Vec::new();"]
         tail += self.pairs
         tail += ["    v", "}"]
+        tail += ["", "/// (family, i, j, run): data of version i loaded by the definition of version j through faulty readers",
+                 "#[allow(clippy::type_complexity)]",
+                 "pub fn iofault_pairs() -> Vec<(&'static str, u32, u32, fn(&mut Rng, usize) -> Vec<String>)> {",
+                 "    let mut v: Vec<(&'static str, u32, u32, fn(&mut Rng, usize) -> Vec<String>)> = Vec::new();"]
+        tail += self.io_pairs
+        tail += ["    v", "}"]
         tail += ["", "/// the pairs of `abi_pairs` with the implementation loaded from plugins/v<j> (a cdylib)",
                  "pub fn plugin_pairs() -> Vec<AbiPair> {", "    let mut v: Vec<AbiPair> = Vec::new();"]
         tail += self.plugin_pairs
@@ -468,6 +475,9 @@ LIB = [
     ("parking_lot::Mutex<u32>", "PlMutex_u32"), ("parking_lot::RwLock<Vec<u8>>", "PlRwLock_Vec_u8"),
     ("(u8,)", "Tup1_u8"), ("(u8, u8)", "Tup2_u8_u8"), ("(u8, u32)", "Tup2_u8_u32"), ("(u32, String)", "Tup2_u32_String"),
     ("(u16, u16, u32)", "Tup3_a"), ("(u8, u16, u32)", "Tup3_b"),
+    # 3-tuples rustc reorders without padding (memory order is not declaration order)
+    ("(u8, u16, u8)", "Tup3_reord_a"), ("(u16, u32, u16)", "Tup3_reord_b"), ("(u8, bool, u8)", "Tup3_reord_c"),
+    ("Vec<(u8, u16, u8)>", "Vec_Tup3_reord_a"), ("[(u16, u32, u16); 3]", "Arr3_Tup3_reord_b"), ("Box<[(u8, u16, u8)]>", "BoxSlice_Tup3_reord_a"),
     ("[u8; 0]", "Arr0_u8"), ("[u8; 1]", "Arr1_u8"), ("[u32; 4]", "Arr4_u32"), ("[String; 2]", "Arr2_String"),
     ("[bool; 5]", "Arr5_bool"), ("[[u16; 2]; 3]", "Arr3_Arr2_u16"), ("[usize; 2]", "Arr2_usize"), ("[char; 2]", "Arr2_char"),
     ("std::net::IpAddr", "IpAddr"), ("std::net::SocketAddr", "SocketAddr"), ("savefile::Canary1", "Canary1"),
@@ -570,6 +580,15 @@ def curated():
     T.append(S("AbiRem1", [F("a", "u16"), F("old", "u16", ver=(0, 0), removed="AbiRemoved"), F("b", "u32", ver=(1, None))], versions=(0, 1), repr="C", containers=("vec", "arr")))
     T.append(S("As1", [F("a", "u8"), F("b", "u32", ver=(1, None), as_=[(0, 0, "u16", 0)])], versions=(0, 1), containers=("vec",)))
     T.append(S("As2", [F("s", "String", ver=(2, None), as_=[(0, 1, "u32", 1)]), F("t", "u32", ver=(1, None), as_=[(0, 0, "u16", 2)])], versions=(0, 1, 2), containers=("vec",)))
+    # integer-repr enums whose variants all carry fields: each variant is laid out like a repr(C) struct behind the
+    # tag, so a *later* variant may have padding after the tag although the first one has none
+    T.append(E("PadLaterVariant", [Vr("Small", [F("x0", "u8"), F("x1", "u16"), F("x2", "u32")]), Vr("Wide", [F("x0", "u32")])], repr="u8", containers=("vec", "arr", "boxs")))
+    T.append(E("PadLaterVariant16", [Vr("A", [F("x0", "u16"), F("x1", "u32")]), Vr("B", [F("x0", "u64")]), Vr("C", [F("x0", "u16"), F("x1", "u16"), F("x2", "u16")])], repr="u16", containers=("vec",)))
+    T.append(E("TightVariants", [Vr("A", [F("x0", "u8"), F("x1", "u16")]), Vr("B", [F("x0", "u8"), F("x1", "u8"), F("x2", "u8")])], repr="u8", containers=("vec", "arr")))
+    # a variant inserted in the middle at version 1: later variants get another tag, so version-0 data of the old
+    # definition (`ShapeOld`) has to be refused by the schema gate, not read as the neighbouring variant
+    T.append(E("ShapeOld", [Vr("Circle", [F("x0", "u32")]), Vr("Square", [F("x0", "u32")])], containers=("vec",)))
+    T.append(E("ShapeNew", [Vr("Circle", [F("x0", "u32")]), Vr("Triangle", [F("x0", "u32")], ver=(1, None)), Vr("Square", [F("x0", "u32")])], versions=(0, 1), tags=("sparse-tags",), containers=("vec",)))
     # derived enums that look like library types (same variant names and payloads, different wire format):
     # `Result` writes a bool tag (Ok = 1), `Option` a bool tag (Some = 1); these write the variant index
     T.append(E("OkErrLike", [Vr("Ok", [F("x0", "u32")]), Vr("Err", [F("x0", "String")])], containers=("vec",)))
@@ -916,6 +935,10 @@ def main():
                 g.w("}")
                 plugins.setdefault(k, []).append(fam)
             g.w("}")
+        for i in range(nver):
+            for j in range(i + 1, nver):
+                g.io_pairs.append('    v.push(("%s", %d, %d, |r, n| crate::iofault::xver_read_case::<%s_v%d::T, %s_v%d::T>("%s", %d, %d, r, n)));'
+                                  % (fam, i, j, fam, i, fam, j, fam, i, j))
         if fam in downgradable:
             for i in range(nver):
                 for j in range(nver):
